@@ -30,8 +30,12 @@ pub fn configs(prop: &str, thorough: bool) -> Vec<SimConfig> {
             bounds.sort();
             bounds.dedup();
             for m in bounds {
-                // bursts of k concurrent HTTP/1.1 requests to one origin, all release orders
-                let mut c = SimConfig::base(&format!("burst-k{k}-max{m}"));
+                // bursts of k concurrent HTTP/1.1 requests to one origin, all release orders.
+                // Fine-grained release steps (respond / poll / ready / hand-back task interleaved) for
+                // k=3 (quick: only for the bound 1, the others use the macro release step);
+                // k=4 always uses the macro release step.
+                let fine = k == 3 && (thorough || m == 1);
+                let mut c = SimConfig::base(&format!("burst-k{k}-max{m}{}", if fine { "" } else { "-macro" }));
                 c.max_requests = k;
                 c.allow_h2 = false;
                 c.max_idle_per_host = m;
@@ -39,7 +43,24 @@ pub fn configs(prop: &str, thorough: bool) -> Vec<SimConfig> {
                 c.ev_dial_fail = false;
                 c.ev_close = false;
                 c.burst = true;
+                c.macro_finish = !fine;
+                if k == 4 {
+                    c.max_depth = Some(16);
+                }
                 v.push(c);
+            }
+            if thorough {
+                for m in [0usize, 1, 2, 3, 4] {
+                    let mut c = SimConfig::base(&format!("burst-k3-max{m}"));
+                    c.max_requests = 3;
+                    c.allow_h2 = false;
+                    c.max_idle_per_host = m;
+                    c.ev_cancel = false;
+                    c.ev_dial_fail = false;
+                    c.ev_close = false;
+                    c.burst = true;
+                    v.push(c);
+                }
             }
             // peers closing some idle connections
             let mut c = SimConfig::base("burst-k2-max1-close");
@@ -48,6 +69,18 @@ pub fn configs(prop: &str, thorough: bool) -> Vec<SimConfig> {
             c.max_idle_per_host = 1;
             c.burst = true;
             v.push(c);
+            // a request that took an idle connection and is cancelled unpolled while releases refill the list
+            for m in [1usize, 2] {
+                let mut c = SimConfig::base(&format!("n3-macro-cancel-max{m}"));
+                c.max_requests = 3;
+                c.allow_h2 = false;
+                c.max_idle_per_host = m;
+                c.ev_dial_fail = false;
+                c.ev_close = false;
+                c.macro_finish = true;
+                c.max_depth = Some(if thorough { 16 } else { 13 });
+                v.push(c);
+            }
             // mixed protocols, two origins, full alphabet, small bound
             let mut c = full("mixed-n2-max1", 2, true);
             c.max_idle_per_host = 1;
